@@ -13,7 +13,7 @@ PROPERTY = "C01"
 RULE = ("documents are built by independent serialisers from generated timestamp spellings "
         "(fields, not instants), lines ended by LF, CRLF or bare CR: SRT HH+:MM:SS[,mmm]; WebVTT [HH+:]MM:SS.mmm with ids, "
         "settings, NOTE blocks, empty cues and reader options (time shift of either sign - also one that moves cues before zero: none may be lost -, "
-        "ignore_timing_errors, lang); DFXP clock time with 0-9 fraction digits or :FF frames, "
+        "ignore_timing_errors, lang); DFXP clock time with 0-45 fraction digits or :FF frames, "
         "offset times n[.d](h|m|s|ms|f), begin+end and begin+dur, empty <p> (with, without or with partial timing attributes), 1-2 divs; SAMI "
         "syncs in 1-3 languages (also spaced by exactly 4 s, the default duration of a last cue) with ends given by blank P or the next cue, quoted/unquoted, "
         "upper/lower case; MicroDVD with/without {0}{0}fps header (any decimal rate 1-120 with 0-3 fraction digits; frames biased to those falling on whole microseconds). Expected instants come from "
